@@ -1,0 +1,11 @@
+//go:build !verif
+
+// Package verifhook contains hook points used by the external verification harness.
+// Without the "verif" build tag every function is empty and is inlined away.
+package verifhook
+
+// Point marks a position in the code.
+func Point(string) {}
+
+// Event reports an event.
+func Event(string, ...any) {}
